@@ -30,7 +30,7 @@ pub struct Scenario {
 
 /// Snapshot histories that precede the interrupted snapshot. The persisted dataset is read back
 /// from the disk afterwards, so a history only has to leave the keys `a`, `bb`, `ccc` alive.
-pub const HISTORIES: [&str; 5] = ["one-snapshot", "second-incremental", "after-reclaim", "tombstone-on-disk", "restarted"];
+pub const HISTORIES: [&str; 6] = ["one-snapshot", "second-incremental", "after-reclaim", "tombstone-on-disk", "restarted", "removed-then-restarted"];
 
 pub fn scenarios(quick: bool) -> Vec<Scenario> {
     let base: Vec<(String, String)> = vec![("a".into(), val(3, 'a')), ("bb".into(), val(240, 'b')), ("ccc".into(), val(3, 'c'))];
@@ -157,8 +157,15 @@ fn prepare(sc: &Scenario) -> Prepared {
             p.admin.exec(&p.node, "snapshot false t");
             p.node.run_snapshot_queue();
         }
-        // the node was restarted: what it holds in memory (addresses, states) comes from the loader
-        "restarted" => {
+        // the node was restarted: what it holds in memory (addresses, states) comes from the loader;
+        // in the second form the first user key of the file was removed before (its record stays in the key file,
+        // the records of the other keys come after it)
+        "restarted" | "removed-then-restarted" => {
+            if HISTORIES[sc.history] == "removed-then-restarted" {
+                p.tok.exec(&p.node, "remove a");
+                p.admin.exec(&p.node, "snapshot false t");
+                p.node.run_snapshot_queue();
+            }
             let dir = p.node.ctx.dir.clone();
             p.node.shutdown();
             let ctx = NodeCtx::new(dir, 500_000);
